@@ -54,6 +54,11 @@ func new_RemoveUnusedPass(m *ast.Module) *_RemoveUnusedPass {
 }
 
 func (p *_RemoveUnusedPass) DoPass() *ast.Module {
+	// 通过索引引用函数(或函数没有名字)时, 删除函数会改变索引空间, 不做裁剪
+	if p.hasFuncIndexRef() {
+		return p.m
+	}
+
 	for i := range p.funcs {
 		p.funcs[i].color = white
 	}
@@ -119,11 +124,11 @@ func (p *_RemoveUnusedPass) markFuncReachable(fn *funcObj) {
 func (p *_RemoveUnusedPass) markFuncReachable_ins(ins ast.Instruction) {
 	switch ins := ins.(type) {
 	case ast.Ins_Call:
-		if xFn := p.funcs[ins.X]; xFn.color == white {
+		if xFn := p.funcs[ins.X]; xFn != nil && xFn.color == white {
 			p.markFuncReachable(xFn)
 		}
 	case ast.Ins_TableSet:
-		if xFn := p.funcs[ins.TableIdx]; xFn.color == white {
+		if xFn := p.funcs[ins.TableIdx]; xFn != nil && xFn.color == white {
 			p.markFuncReachable(xFn)
 		}
 	case ast.Ins_Block:
@@ -142,4 +147,61 @@ func (p *_RemoveUnusedPass) markFuncReachable_ins(ins ast.Instruction) {
 			p.markFuncReachable_ins(x)
 		}
 	}
+}
+
+func isFuncIndex(s string) bool {
+	return s != "" && s[0] >= '0' && s[0] <= '9'
+}
+
+func (p *_RemoveUnusedPass) hasFuncIndexRef() bool {
+	if isFuncIndex(p.m.Start) {
+		return true
+	}
+	for _, elem := range p.m.Elem {
+		for _, elemValue := range elem.Values {
+			if isFuncIndex(elemValue) {
+				return true
+			}
+		}
+	}
+	for _, exp := range p.m.Exports {
+		if exp.Kind == token.FUNC && isFuncIndex(exp.FuncIdx) {
+			return true
+		}
+	}
+	for _, importSpec := range p.m.Imports {
+		if importSpec.ObjKind == token.FUNC && importSpec.FuncName == "" {
+			return true
+		}
+	}
+	for _, fn := range p.m.Funcs {
+		if fn.Name == "" || hasFuncIndexRef_list(fn.Body.List) {
+			return true
+		}
+	}
+	return false
+}
+
+func hasFuncIndexRef_list(list []ast.Instruction) bool {
+	for _, ins := range list {
+		switch ins := ins.(type) {
+		case ast.Ins_Call:
+			if isFuncIndex(ins.X) {
+				return true
+			}
+		case ast.Ins_Block:
+			if hasFuncIndexRef_list(ins.List) {
+				return true
+			}
+		case ast.Ins_Loop:
+			if hasFuncIndexRef_list(ins.List) {
+				return true
+			}
+		case ast.Ins_If:
+			if hasFuncIndexRef_list(ins.Body) || hasFuncIndexRef_list(ins.Else) {
+				return true
+			}
+		}
+	}
+	return false
 }
